@@ -67,6 +67,12 @@ class ExprT:
 
     # integers -----------------------------------------------------------------------------
     def z(self, node):
+        try:
+            key = ast.unparse(node)
+        except Exception:  # pragma: no cover
+            key = None
+        if key is not None and key in self.env and not isinstance(node, ast.Constant):
+            return self.env[key]
         if isinstance(node, ast.Constant):
             if isinstance(node.value, bool) or not isinstance(node.value, int):
                 self.fail(node, "non-integer constant")
